@@ -500,6 +500,18 @@ func runFilter(in []int64) []int64 {
 				break
 			}
 		}
+		// a queue hierarchy for the queue controller's lister: n1 under root, n2 under n1, n3 under n2,
+		// n4 without spec.parent — a command on a child queue must produce a request for that queue only
+		for _, q := range [][2]string{{"root", ""}, {"n1", "root"}, {"n2", "n1"}, {"n3", "n2"}, {"n4", ""}} {
+			infVC.SchedulingV1beta1().Queues().Create(ctx, &sch.Queue{ObjectMeta: metav1.ObjectMeta{Name: q[0]},
+				Spec: sch.QueueSpec{Parent: q[1]}, Status: sch.QueueStatus{State: sch.QueueStateOpen}}, metav1.CreateOptions{})
+		}
+		for t := 0; t < 2000 && len(queueCtl.QueueIndexer().List()) < 5; t++ {
+			time.Sleep(500 * time.Microsecond)
+		}
+		if len(queueCtl.QueueIndexer().List()) < 5 {
+			panic("the queue informer did not deliver the queue hierarchy")
+		}
 		time.Sleep(20 * time.Millisecond) // let a late relist of the probes drain before the first case
 	}
 	jobCtl.VerifCmdReset(infVC)
@@ -515,14 +527,21 @@ func runFilter(in []int64) []int64 {
 			c.TargetObject = &metav1.OwnerReference{APIVersion: apiVersions[tv], Kind: kinds[tk], Name: fmt.Sprintf("n%d", tn)}
 		}
 		// the controller OWNER of the Command need not be its target (a Command written by hand)
+		// owner token = kind code (0 none, 1 Job, 2 Queue, 3 foreign group) + 4 * name (0 = the target's
+		// name, k = the OTHER object n<k> of that kind: e.g. a Command that targets job n1 but is
+		// controller-owned by job n3)
 		ctl := true
-		switch owner {
+		on := fmt.Sprintf("n%d", tn)
+		if owner/4 != 0 {
+			on = fmt.Sprintf("n%d", owner/4)
+		}
+		switch owner % 4 {
 		case 1:
-			c.OwnerReferences = []metav1.OwnerReference{{APIVersion: apiVersions[1], Kind: "Job", Name: fmt.Sprintf("n%d", tn), UID: "o1", Controller: &ctl}}
+			c.OwnerReferences = []metav1.OwnerReference{{APIVersion: apiVersions[1], Kind: "Job", Name: on, UID: "o1", Controller: &ctl}}
 		case 2:
-			c.OwnerReferences = []metav1.OwnerReference{{APIVersion: apiVersions[2], Kind: "Queue", Name: fmt.Sprintf("n%d", tn), UID: "o2", Controller: &ctl}}
+			c.OwnerReferences = []metav1.OwnerReference{{APIVersion: apiVersions[2], Kind: "Queue", Name: on, UID: "o2", Controller: &ctl}}
 		case 3:
-			c.OwnerReferences = []metav1.OwnerReference{{APIVersion: apiVersions[3], Kind: "Queue", Name: fmt.Sprintf("n%d", tn), UID: "o3", Controller: &ctl}}
+			c.OwnerReferences = []metav1.OwnerReference{{APIVersion: apiVersions[3], Kind: "Queue", Name: on, UID: "o3", Controller: &ctl}}
 		}
 		if _, err := infVC.BusV1alpha1().Commands(c.Namespace).Create(ctx, c, metav1.CreateOptions{}); err != nil {
 			panic(err)
@@ -994,6 +1013,9 @@ func genFilter(rng *vh.Rng, n int, emit func(id string, sel int, in []int64, kin
 			}
 			if r.Chance(1, 2) {
 				owner = int64(r.Range(0, 3))
+			}
+			if owner != 0 && r.Chance(1, 2) {
+				owner += 4 * int64(r.Range(1, 4)) // the owner is ANOTHER object of that kind (possibly the same name again)
 			}
 			// target names from a small pool: a foreign Command often names an object an exact one names too
 			in = append(in, tk, tv, int64(r.Range(1, 3)), int64(r.Range(1, 4)), int64(r.Range(1, 4)), owner)
